@@ -81,9 +81,13 @@ ClusterStep(ev) ==
                                   /\ SeqNear(R.v2[i], SameStartOf(R.v1[i], R.v1[m], R.s, R.e), tol(i)), "SameStartAligned")
   IN IF ev = 1 THEN tm ELSE ss
 
+\* --- relation between two recorded results: y = x element-wise to tol * scale -------------------
+RelStep == Fails(Len(R.x) = Len(R.y) /\ \A j \in 1..Len(R.x) : Close(R.y[j], R.x[j], FMul(R.tol, R.scale)), R.clause)
+
 Step == /\ l >= 0 /\ l < N /\ l' = l + 1 /\ tid' = tid
         /\ bad' = bad \cup (IF R.kind = "combine" THEN CombineStep
-                            ELSE IF R.kind = "scan" THEN ScanStep(l + 1) ELSE ClusterStep(l + 1))
+                            ELSE IF R.kind = "scan" THEN ScanStep(l + 1)
+                            ELSE IF R.kind = "rel" THEN RelStep ELSE ClusterStep(l + 1))
 Finish == l = N /\ l' = -1 /\ UNCHANGED <<tid, bad>>
 Next == Step \/ Finish
 Spec == Init /\ [][Next]_vars
